@@ -2,7 +2,7 @@
 # usage: withpatch.sh <patch> <command...> — applies the patch to a scratch worktree, extracts its facts,
 # runs the command with BW_REPO / BW_FACTS / F set to them, and resets the worktree (development aid)
 PATCH=$(readlink -f $1); shift
-WT=/var/tmp/refrun/wt
+WT=${WT:-/var/tmp/refrun/wt}
 if [ ! -d $WT ]; then mkdir -p /var/tmp/refrun; git -C /repo worktree add --detach $WT HEAD -q; fi
 cd $WT && git checkout -q -- . && git clean -fdq && git checkout -q --detach $(git -C /repo rev-parse HEAD)
 git apply $PATCH || { echo "PATCH-FAIL"; exit 3; }
